@@ -46,4 +46,22 @@ T23zero == Mk(O2, S3, <<<<3, 1, 0>>, <<0, 0, 6>>>>, OMD2, NoMd, "OTU table")
 T23same == Mk(O2, S3, <<<<1, 1, 1>>, <<2, 2, 2>>>>, NoMd, NoMd, "")
 T33same == Mk(O3, S3, <<<<9, 8, 7>>, <<6, 5, 4>>, <<3, 2, 1>>>>, NoMd, SMD3, "")
 T33halfsame == Mk(O3, <<"s2", "s1", "s3">>, <<<<9, 8, 7>>, <<6, 5, 4>>, <<3, 2, 1>>>>, NoMd, NoMd, "")
+\* ---- operands for merge / concat: every overlap pattern, metadata on neither / either / both
+OMDb  == MdRows(<< <<S1("k1", "q")>>, <<S1("k1", "p")>> >>)
+MA    == Mk(O2, S2, <<<<1, 2>>, <<3, 4>>>>, OMD2, SMD2, "OTU table")
+MA0   == Mk(O2, S2, <<<<1, 2>>, <<3, 4>>>>, NoMd, NoMd, "")
+MB    == Mk(<<"o2", "o3">>, <<"s2", "s3">>, <<<<5, 6>>, <<7, 8>>>>, OMDb, NoMd, "")          \* partial overlap
+MB0   == Mk(<<"o2", "o3">>, <<"s2", "s3">>, <<<<5, 6>>, <<7, 8>>>>, NoMd, NoMd, "")
+MBp   == Mk(<<"o2", "o1">>, <<"s2", "s1">>, <<<<10, 20>>, <<30, 40>>>>, NoMd, NoMd, "")       \* same IDs, permuted
+MBs   == Mk(<<"o2", "o1">>, <<"s2", "s1">>, <<<<10, 20>>, <<30, 40>>>>, NoMd, SMD2, "")       \* + sample metadata
+MD0   == Mk(<<"o3", "o4">>, <<"s3", "s4">>, <<<<5, 0>>, <<0, 6>>>>, NoMd, NoMd, "")            \* disjoint on both axes
+MDm   == Mk(<<"o3", "o4">>, <<"s3", "s4">>, <<<<5, 0>>, <<0, 6>>>>, OMDb, SMD2, "")
+MN    == Mk(<<"o1">>, <<"s2">>, <<<<7>>>>, NoMd, NoMd, "")                                      \* nested
+MC0   == Mk(<<"o4">>, <<"s1", "s4">>, <<<<9, 1>>>>, NoMd, NoMd, "")
+ME    == Mk(<<"o3", "o4">>, <<"s2", "s1">>, <<<<5, 6>>, <<7, 0>>>>, OMDb, NoMd, "")            \* disjoint obs, permuted samples
+MF    == Mk(<<"o5">>, <<"s1", "s3">>, <<<<2, 9>>>>, NoMd, NoMd, "")
+MG    == Mk(<<"o2", "o1">>, <<"s3", "s4">>, <<<<1, 0>>, <<2, 3>>>>, NoMd, SMD2, "")            \* disjoint samples, permuted obs
+\* count tables for subsampling / collapsing (non-negative integers, a zero vector, a single entry, totals = n)
+CT34  == Mk(O3, <<"s1", "s2", "s3", "s4">>, <<<<2, 0, 1, 0>>, <<0, 0, 3, 0>>, <<1, 0, 1, 5>>>>, OMD3, NoMd, "OTU table")
+CT23  == Mk(O2, S3, <<<<2, 1, 0>>, <<1, 1, 3>>>>, OMD2, SMD3, "")
 =============================================================================
